@@ -44,7 +44,8 @@ def compare_instance(states, obs, bad):
     mk = "refmasked" if masked else "ref-called"
 
     def report(site, feature, impl, model):
-        bad.append(({"site": site, "feature": feature}, {"instance": inst, "impl": impl, "model": model}))
+        bad.append(({"site": site, "feature": feature},
+                    {"instance": inst, "impl": impl, "model": model, "model_states": states}))
 
     def pick(site, alt):
         for st in states:
@@ -161,15 +162,50 @@ def features(states):
     return f
 
 
+def replay_file(ck, path):
+    """./check C13 --replay work/C13/violation-N.json : re-run exactly the recorded cases"""
+    env.EVIDENCE = ck.wd          # a replay must not overwrite the evidence of the last full run
+    with open(path) as fh:
+        rec = json.load(fh)
+    ex = rec["detail"].get("examples", [])
+    cases = [e["model_states"] for e in ex if "model_states" in e]
+    events = [e["event"] for e in ex if "event" in e]
+    grouped = {}
+    if cases:
+        data_dir = repodata.copy_test_data(ck.wd, repodata.ASSEMBLE_FILES)
+        insts = [{"idx": i, "ps": st[0]["ps"], "k": st[0]["k"], "m": st[0]["m"], "post": st[0]["post"], "theta": st[0]["theta"]}
+                 for i, st in enumerate(cases)]
+        for i, e in enumerate(x for x in ex if "model_states" in x):
+            insts[i]["idx"] = 0 if e["instance"].get("locus") == "CHR2_10_30" else 1     # same real locus as recorded
+        rr = pool.map_tasks("impl.c13", [{"op": "instances", "instances": insts, "seed": ck.seed, "data_dir": data_dir}])[0]
+        if not rr["ok"]:
+            ck.machinery_failure(rr["error"])
+        for states, obs in zip(cases, rr["result"]):
+            ck.evaluations += 1
+            bad = []
+            compare_instance(states, obs, bad)
+            for key, detail in bad:
+                group(grouped, "hapcalling-mismatch", key, detail)
+    for (kind, _), g in sorted(grouped.items()):
+        ck.violation(kind, {"n_cases": g["n"], "examples": g["examples"]}, key=g["key"])
+    if events:
+        validate_events(ck, events, "replay-trace.json")
+    ck.note("replayed_cases", len(cases) + len(events))
+    ck.sample({"kind": "replayed", "file": path})
+    ck.finish()
+
+
 def main():
     ck = Check("C13")
     tier = ck.tier
     ck.rule = (
         "TLC enumerates every collection of per-sample posteriors (genotype bags with counts out of M, support <= maxsup) "
-        "of each (ploidies, haplotypes, M) instance, each of six thresholds {0,1/8,1/4,1/2,3/4,1} and every admissible ALT order; "
+        "of each (ploidies, haplotypes, M) instance, each threshold in {0,1/8,1/4,1/2,3/4,1} (thorough: also 3/8,5/8,7/8) and every admissible ALT order; "
         "each (posteriors, threshold) instance is replayed into the unit functions and into the real assemble code path. "
         "Non-trivial = instance with a masked reference, a '.' in some GT, >= 2 ALT alleles or a tie in ALT order."
     )
+    if os.environ.get("VERIF_REPLAY"):
+        return replay_file(ck, os.environ["VERIF_REPLAY"])
     try:
         r = tlc.run(SPEC, "HapCalling", "MC_%s.cfg" % tier, timeout=2400)
         ck.add_tlc(r, "HapCalling")
@@ -246,6 +282,41 @@ def main():
     ck.finish()
 
 
+def validate_events(ck, events, fname):
+    """code -> spec: TLC (TraceHapCalling) gives every recorded locus a verdict (several JVMs side by side)"""
+    from concurrent.futures import ThreadPoolExecutor
+
+    nparts = max(1, min(6, env.NCPU // 2, (len(events) + 39) // 40))
+    parts = [events[i::nparts] for i in range(nparts)]
+
+    def one(i):
+        tf = os.path.join(ck.wd, "%s.%d" % (fname, i))
+        with open(tf, "w") as fh:
+            json.dump(parts[i], fh)
+        return tlc.run(SPEC, "TraceHapCalling", "Trace.cfg", workers=1, extra_env={"TRACE_FILE": tf}, timeout=1500,
+                       name="TraceHapCalling-%s-%d" % (fname, i))
+
+    try:
+        with ThreadPoolExecutor(nparts) as ex:
+            results = list(ex.map(one, range(nparts)))
+    except tlc.TLCError as e:
+        ck.machinery_failure(str(e))
+    grouped = {}
+    for i, t in enumerate(results):
+        ck.add_tlc(t, "TraceHapCalling" if nparts == 1 else "TraceHapCalling:%d" % i)
+        consumed = [p for p in t.printed if "consumed" in p]
+        if not consumed or consumed[0]["consumed"] != len(parts[i]):
+            ck.machinery_failure("trace not fully consumed: %s of %d" % (consumed, len(parts[i])))
+        for p in t.printed:
+            if "reject" in p:
+                e = parts[i][p["reject"] - 1]
+                group(grouped, "trace-reject", {"site": "assemble", "clause": p["clause"]},
+                      {"clause": p["clause"], "event": e})
+    for (kind, _), g in sorted(grouped.items()):
+        ck.violation(kind, {"n_cases": g["n"], "examples": g["examples"][:2]}, key=g["key"])
+    return sum(g["n"] for g in grouped.values())
+
+
 def trace_part(ck):
     tier = ck.tier
     nrun = 16 if tier == "quick" else 120
@@ -265,25 +336,7 @@ def trace_part(ck):
                 events.append(e)
     if not events:
         ck.machinery_failure("no program events recorded")
-    tf = os.path.join(ck.wd, "trace.json")
-    with open(tf, "w") as fh:
-        json.dump(events, fh)
-    try:
-        t = tlc.run(SPEC, "TraceHapCalling", "Trace.cfg", workers=1, extra_env={"TRACE_FILE": tf}, timeout=1500)
-    except tlc.TLCError as e:
-        ck.machinery_failure(str(e))
-    ck.add_tlc(t, "TraceHapCalling")
-    consumed = [p for p in t.printed if "consumed" in p]
-    if not consumed or consumed[0]["consumed"] != len(events):
-        ck.machinery_failure("trace not fully consumed: %s of %d" % (consumed, len(events)))
-    grouped = {}
-    for p in t.printed:
-        if "reject" in p:
-            e = events[p["reject"] - 1]
-            group(grouped, "trace-reject", {"site": "assemble", "clause": p["clause"]},
-                  {"line": p["reject"], "clause": p["clause"], "event": e})
-    for (kind, _), g in sorted(grouped.items()):
-        ck.violation(kind, {"n_cases": g["n"], "examples": g["examples"][:2]}, key=g["key"])
+    validate_events(ck, events, "trace.json")
     ck.traces += len(events)
     ck.evaluations += len(events)
     ck.nontrivial += sum(1 for e in events if e["out"]["masked"] or any(-1 in s["gt"] for s in e["out"]["samples"])
